@@ -12,6 +12,7 @@ use std::hash::{Hash, Hasher};
 
 #[derive(Clone, Copy, Debug, PartialEq, Eq)]
 pub enum SProp {
+    C02,
     C04,
     C06,
     C08,
@@ -415,6 +416,7 @@ pub fn run_cfg(prop: SProp, cfg: &SCfg, prefix: &[u16], render_it: bool) -> (Run
     let mut vs = Vec::new();
     let mut nt = false;
     match prop {
+        SProp::C02 => c02(cfg, &e, &f, &mut vs, &mut nt),
         SProp::C04 => c04(cfg, &e, &f, prefix, &mut vs, &mut nt, &mut out.extra_execs),
         SProp::C06 => c06(cfg, &e, &f, &mut vs, &mut nt),
         SProp::C08 => c08(cfg, &e, &f, &mut vs, &mut nt),
@@ -430,6 +432,72 @@ pub fn run_cfg(prop: SProp, cfg: &SCfg, prefix: &[u16], render_it: bool) -> (Run
     out.nontrivial = nt;
     out.violations = vs;
     (out, e.points)
+}
+
+// ---------------------------------------------------------------------------------------------
+// C02 (server side): no lost wakeups between the request stream, the handlers and the sink
+
+fn c02(cfg: &SCfg, e: &Exec, f: &SFacts, vs: &mut Vec<Violation>, nt: &mut bool) {
+    for p in &f.panics {
+        v(vs, "C02-panic", cfg, format!("panic: {p}"));
+    }
+    if f.horizon {
+        v(vs, "C02-livelock", cfg, "step horizon exceeded".into());
+    }
+    if f.spin {
+        v(vs, "C02-spin", cfg, "the request stream retried a not-ready sink forever inside one poll".into());
+    }
+    if f.horizon || f.spin || !f.panics.is_empty() || f.first_err.is_some() {
+        return;
+    }
+    // a real wait happened: some task returned Pending and was polled again later
+    let mut pend = std::collections::BTreeSet::new();
+    for r in &e.recs {
+        match r {
+            Rec::PollEnd(t, false) => {
+                pend.insert(format!("{t:?}"));
+            }
+            Rec::PollStart(t) if pend.contains(&format!("{t:?}")) => *nt = true,
+            _ => {}
+        }
+    }
+    if let Some((q1idx, q)) = &f.q1 {
+        let alive = q[1] != 0;
+        if alive && q[0] > 0 {
+            v(vs, "C02-Q1-unread-input", cfg, format!("{} inbound messages left unread with nothing woken", q[0]));
+        }
+        if alive {
+            for i in f.inst.values() {
+                let (surely, _) = tracked(f, i, *q1idx);
+                if surely && i.hfinish.is_some() && i.exec_done.is_some() && i.resp.is_empty() {
+                    v(
+                        vs,
+                        "C02-Q1-response-not-written",
+                        cfg,
+                        format!("handler of request id {} completed and its response is buffered, the sink is ready, yet nothing woke the request stream to write it", i.id),
+                    );
+                }
+            }
+        }
+    }
+    // final quiescence: every deadline has passed; no handler may still be alive
+    let mut last_q2 = false;
+    for r in &e.recs {
+        match r {
+            Rec::N("Q2", _) => last_q2 = true,
+            Rec::N("Q2h", h) if last_q2 => {
+                if h[2] == 0 && h[3] != 0 {
+                    v(
+                        vs,
+                        "C02-Q2-handler-pending",
+                        cfg,
+                        format!("handler {} (payload {}) is still pending at final quiescence, past every deadline", h[0], h[1]),
+                    );
+                }
+            }
+            _ => {}
+        }
+    }
 }
 
 // ---------------------------------------------------------------------------------------------
@@ -1095,6 +1163,8 @@ fn base(reqs: Vec<ReqCfg>, limit: Option<usize>, rb: usize, fl: Flavour, cap: us
         fault: None,
         eof_at_end: true,
         route: Route::Requests,
+        burst: false,
+        dup_deadline_ms: 10_000,
     }
 }
 
@@ -1109,6 +1179,37 @@ pub fn configs(prop: SProp, tier: Tier) -> Vec<SCfg> {
     let mut out = Vec::new();
     let sinks: &[(Flavour, usize)] = &[(Flavour::Always, 1), (Flavour::Coupled, 1)];
     match prop {
+        SProp::C02 => {
+            let alpha = S_CANCEL | S_FINISH | S_DRAIN | S_EOF | S_ADVANCE | S_DROPH | S_DUP;
+            for n in 1..=3usize {
+                for limit in [None, Some(1)] {
+                    for rb in [1usize, 2] {
+                        for (fl, cap) in [(Flavour::Always, 1usize), (Flavour::Coupled, 1), (Flavour::Coupled, 2), (Flavour::Indep, 1)] {
+                            for pol in finish_policies(n) {
+                                if !thorough && n == 3 && (rb == 2 || limit.is_some() || pol.iter().filter(|b| !**b).count() > 1) {
+                                    continue;
+                                }
+                                for dl in [10_000i64, 50] {
+                                    let reqs: Vec<ReqCfg> = pol
+                                        .iter()
+                                        .enumerate()
+                                        .map(|(i, f)| ReqCfg { deadline_ms: dl, ..ReqCfg::simple(i as u64, *f) })
+                                        .collect();
+                                    for route in [Route::Requests, Route::Execute] {
+                                        if route == Route::Execute && (n == 3 || rb == 2) && !thorough {
+                                            continue;
+                                        }
+                                        let mut c = base(reqs.clone(), limit, rb, fl, cap, alpha);
+                                        c.route = route;
+                                        out.push(c);
+                                    }
+                                }
+                            }
+                        }
+                    }
+                }
+            }
+        }
         SProp::C04 => {
             let alpha = S_CANCEL | S_CANCEL_UNKNOWN | S_FINISH | S_DRAIN;
             for n in 1..=3usize {
@@ -1135,7 +1236,7 @@ pub fn configs(prop: SProp, tier: Tier) -> Vec<SCfg> {
             }
         }
         SProp::C06 => {
-            let alpha = S_ADVANCE | S_FINISH | S_DRAIN;
+            let alpha = S_ADVANCE | S_FINISH | S_DRAIN | S_DUP;
             let ds: &[i64] = &[-1000, 0, 1, 50, 1000, 700 * 86_400_000];
             for limit in [None, Some(1), Some(2)] {
                 for (fl, cap) in sinks {
@@ -1183,6 +1284,18 @@ pub fn configs(prop: SProp, tier: Tier) -> Vec<SCfg> {
                                 let mut c = base(rs, None, rb, *fl, *cap, alpha);
                                 c.route = route;
                                 out.push(c);
+                                // a pipelining peer: request, its cancellation and a reuse of the id,
+                                // all sent before the server runs
+                                let mut rs = vec![ReqCfg::simple(1, false), ReqCfg::cancel_of(1), ReqCfg::simple(1, pol[0])];
+                                if n == 2 {
+                                    rs.push(ReqCfg::simple(2, pol[1]));
+                                }
+                                for burst in [true, false] {
+                                    let mut c = base(rs.clone(), None, rb, *fl, *cap, alpha);
+                                    c.route = route;
+                                    c.burst = burst;
+                                    out.push(c);
+                                }
                             }
                         }
                     }
@@ -1246,6 +1359,7 @@ pub fn configs(prop: SProp, tier: Tier) -> Vec<SCfg> {
                                             deadline_ms: dl,
                                             finish: pol[i % 3],
                                             hk: kinds[i % 3],
+                                            cancel: false,
                                         });
                                     }
                                     if !thorough {
@@ -1282,6 +1396,21 @@ pub fn configs(prop: SProp, tier: Tier) -> Vec<SCfg> {
         }
         SProp::C14 => {
             let alpha = S_CANCEL | S_FINISH | S_DRAIN;
+            // fault sequences on the response sink
+            for (fl, cap) in [(Flavour::Always, 1usize), (Flavour::Coupled, 1), (Flavour::Indep, 1)] {
+                for limit in [None, Some(1)] {
+                    for op in [Op::Ready, Op::Send, Op::Flush] {
+                        for k in 1..=(if thorough { 6 } else { 4 }) {
+                            for sticky in [false, true] {
+                                let reqs = (0..2).map(|i| ReqCfg::simple(i as u64, true)).collect();
+                                let mut c = base(reqs, limit, 1, fl, cap, alpha);
+                                c.fault = Some(Fault { op, k, sticky, eof: false });
+                                out.push(c);
+                            }
+                        }
+                    }
+                }
+            }
             for (fl, cap) in [
                 (Flavour::Always, 1usize),
                 (Flavour::Coupled, 1),
@@ -1303,6 +1432,11 @@ pub fn configs(prop: SProp, tier: Tier) -> Vec<SCfg> {
                     }
                 }
             }
+        }
+    }
+    if prop == SProp::C06 {
+        for c in out.iter_mut() {
+            c.dup_deadline_ms = 1; // duplicates carry a shorter deadline than the original
         }
     }
     out
